@@ -9,6 +9,7 @@ package main
 //                executor's proposalsForExecution and PropStatus run against it
 
 import (
+	"errors"
 	"os"
 	"strings"
 	"sync"
@@ -193,7 +194,120 @@ func init() {
 	}
 }
 
+func init() {
+	// race <statuses of nonces 0..n-1> <nonces of delivery B> <nonces of delivery A>
+	//   two deliveries on ONE executor. B is parked inside its first status read (the answer already taken). If B
+	//   holds propMutex there, A cannot run: B is resumed first, then A delivers; otherwise A runs to completion
+	//   (delivery, execution recorded executed) inside B's check-then-act window, then B resumes. Finally B's execution
+	//   is recorded failed. TryLock picks the only schedule possible on the tree; channels sequence it; no sleeps.
+	//   =>  <selected by B>|<selected by A>|<statuses>|<held|free: propMutex while B is parked>
+	ops["C17.race"] = func(a []string) string {
+		init := c3Script(a[0])
+		b := newC3Btc("-")
+		for i := range init {
+			b.db.preset(c3Src, c3Dst, uint64(i), init[i:i+1])
+		}
+		type res struct {
+			props []*btcExecutor.BtcTransferProposal
+			err   error
+		}
+		show := func(r res) string {
+			if r.err != nil {
+				return "e"
+			}
+			xs := []string{}
+			for _, p := range r.props {
+				xs = append(xs, utoa(p.Data.DepositNonce))
+			}
+			return "s:" + joinOr(xs, ",")
+		}
+		deliver := func(ns string) res {
+			ps, err := b.exe.VerifC17ProposalsForExecution(c3BtcProps(c3Nonces(ns), "", "m"), "m")
+			if err != nil {
+				ps = nil
+			}
+			return res{ps, err}
+		}
+		gate := b.db.armAfterRead()
+		chB := make(chan res, 1)
+		go func() {
+			defer func() {
+				if r := recover(); r != nil {
+					chB <- res{nil, errors.New("panic")}
+				}
+			}()
+			chB <- deliver(a[1])
+		}()
+		var rB, rA res
+		held := "free"
+		waitB := func() bool {
+			select {
+			case rB = <-chB:
+				return true
+			case <-time.After(10 * time.Second):
+				return false
+			}
+		}
+		select {
+		case <-gate.entered:
+			if !b.exe.VerifC17MutexFree() {
+				held = "held"
+				close(gate.resume)
+				if !waitB() {
+					return "B-hang"
+				}
+				rA = deliver(a[2])
+				b.exe.VerifC17StoreProposalsStatus(rA.props, store.ExecutedProp)
+			} else {
+				rA = deliver(a[2])
+				b.exe.VerifC17StoreProposalsStatus(rA.props, store.ExecutedProp)
+				close(gate.resume)
+				if !waitB() {
+					return "B-hang"
+				}
+			}
+		case rB = <-chB: // B made no status read (empty delivery)
+			rA = deliver(a[2])
+			b.exe.VerifC17StoreProposalsStatus(rA.props, store.ExecutedProp)
+			held = "held"
+		case <-time.After(10 * time.Second):
+			return "B-never-read"
+		}
+		b.exe.VerifC17StoreProposalsStatus(rB.props, store.FailedProp)
+		return show(rB) + "|" + show(rA) + "|" + b.statuses(len(init)) + "|" + held
+	}
+}
+
+func genC17Race(g *G) {
+	subs := []string{"0", "1", "0,1", "1,0"}
+	for _, sb := range subs {
+		for _, sa := range subs {
+			for _, s0 := range "mpfe" {
+				for _, s1 := range "mpfe" {
+					g.Emit("race", string(s0)+string(s1), sb, sa)
+				}
+			}
+		}
+	}
+	for i := 0; i < g.Count(150, 4000); i++ {
+		n := 3 + g.Intn(2)
+		var st strings.Builder
+		for j := 0; j < n; j++ {
+			st.WriteByte("mffpe"[g.Intn(5)])
+		}
+		pick := func() string {
+			xs := []string{}
+			for k := 1 + g.Intn(3); k > 0; k-- {
+				xs = append(xs, itoa(g.Intn(n)))
+			}
+			return strings.Join(xs, ",")
+		}
+		g.Emit("race", st.String(), pick(), pick())
+	}
+}
+
 func genC17Overlap(g *G) {
+	genC17Race(g)
 	for _, pair := range [][2]string{{"3", "4"}, {"4", "3"}, {"5", "15"}, {"15", "5"}, {"7", "7"}} {
 		for _, init := range []string{"m:m", "p:m", "p:p", "e:p", "f:e"} {
 			st := strings.Split(init, ":")
